@@ -12,7 +12,7 @@
 import Genshi.Lemmas.XmlRefs
 import Genshi.Lemmas.XmlFlatD
 import Genshi.Lemmas.XmlEmptyTag
-import Genshi.Lemmas.XmlTokD
+import Genshi.Lemmas.XmlEncode
 import Genshi.Model.XmlParser
 namespace Genshi.Props.C02
 open Genshi Genshi.Xml Genshi.Escape Genshi.Xml.Reader
@@ -63,41 +63,53 @@ theorem output_wellformed_events (pref : List (Str × Str)) (hpref : prefOK pref
     (resolve ((flatten pref (emptyTag s)).map normF)).isSome = true := by
   rw [resolve_flatten pref hpref _ h]; rfl
 
-/-- **The reader's tokenizer is a left inverse of the serializer's text** on
-    whole documents in tokenizer normal form (`docTextOK`: an optional XML
-    declaration, at most one DOCTYPE, names, attribute values, text, comments,
-    PIs, CDATA sections the XML syntax can express; no `Markup` text; character
-    data not adjacent to character data): the text is produced (no exception)
-    and is read back as the same events (`None` attribute values as empty
-    strings; the line breaks the serializer writes after the declaration and
-    the DOCTYPE appear as white-space tokens, `tokOf`). -/
-theorem tokenizer_inverts_serializer (fs : List FEv) (h : docTextOK fs = true) :
-    ∃ out, serRun SerSt.init fs = some out ∧ tokenize out = some (tokOf fs) :=
-  tokenize_doc fs h
+/-- **The reader's tokenizer is a left inverse of the serializer's text, under
+    every encoding,** on whole documents in tokenizer normal form (`docTextOK`:
+    an optional XML declaration, at most one DOCTYPE, names, attribute values,
+    text, comments, PIs, CDATA sections the XML syntax can express; no `Markup`
+    text; character data not adjacent to character data) whose markup the
+    encoding can represent (`repMarkup`; character data and attribute values are
+    unrestricted): the text is produced (no exception) and, after
+    `xmlcharrefreplace`, is read back as the same events (`None` attribute values
+    as empty strings; the line breaks after the declaration and the DOCTYPE appear
+    as white-space tokens, `tokOf`). -/
+theorem tokenizer_inverts_serializer (rep : Char → Bool) (hr : AsciiRep rep) (fs : List FEv)
+    (h : docTextOK fs = true) (hm : repMarkup rep fs = true) :
+    ∃ out, serRun SerSt.init fs = some out ∧ tokenize (encodeText rep out) = some (tokOf fs) := by
+  obtain ⟨o1, h1, _⟩ := tokenize_doc (fun _ => true) (fun _ _ => rfl) fs h
+  rw [serRunEnc_all] at h1
+  obtain ⟨o2, h2, h3⟩ := tokenize_doc rep hr fs h
+  have := encodeText_serRun rep hr fs SerSt.init o1 hm h1
+  rw [h2] at this
+  cases this
+  exact ⟨o1, h1, h3⟩
 
-/-- **xml_roundtrip (text level), partial.**  For every well-nested stream in
-    `docOK` whose flattened form the text syntax can express (`docTextOK`), the
-    serializer produces a text and the XML reader — end-of-line and
-    attribute-value normalisation, tokenizer, reference decoding, namespace
-    resolution, well-formedness checks — reads from it exactly the events the
-    stream denotes: same qualified names, attribute lists, character data,
-    comments, PIs, CDATA sections, XML declaration and DOCTYPE.
+/-- **xml_roundtrip (text level, every encoding), partial.**  For every
+    well-nested stream in `docOK` whose flattened form the text syntax can
+    express (`docTextOK`) with markup the encoding can represent (`repMarkup`),
+    the serializer produces a text and from its encoded form (characters the
+    encoding lacks written as character references) the XML reader — end-of-line
+    and attribute-value normalisation, tokenizer, reference decoding, namespace
+    resolution, well-formedness checks — reads exactly the events the stream
+    denotes: same qualified names, attribute lists, character data, comments,
+    PIs, CDATA sections, XML declaration and DOCTYPE.
 
     Full statement (`xml_roundtrip`): the same for every stream the parser
-    produces from a well-formed document and every builder stream, under every
-    encoding.  Missing here: (a) adjacent TEXT events (builder streams; the
-    parser never produces them) need a merging lemma; (b) `docTextOK` is asked
-    of the flattener's *output* (names with prefixes), not derived from
-    conditions on the input names and prefixes; (c) the composition with
-    `encode` over whole documents (proved for character data:
-    `encode_roundtrip_text/_attr`).  All three are exercised by the oracle on
-    the real code and by the correspondence stream `read`. -/
-theorem xml_roundtrip_partial (pref : List (Str × Str)) (hpref : prefOK pref = true) (s : Stream)
+    produces from a well-formed document and every builder stream.  Missing
+    here: (a) adjacent TEXT events (builder streams; the parser never produces
+    them) need a merging lemma; (b) `docTextOK`/`repMarkup` are asked of the
+    flattener's *output* (names with prefixes), not derived from conditions on
+    the input names and prefixes.  Both are exercised by the oracle on the real
+    code and by the correspondence stream `read`; the driver reports for every
+    generated stream whether it is inside these hypotheses. -/
+theorem xml_roundtrip_partial (pref : List (Str × Str)) (hpref : prefOK pref = true)
+    (rep : Char → Bool) (hr : AsciiRep rep) (s : Stream)
     (hn : WellNested s) (h : docOK (emptyTag s) = true)
-    (hb : docTextOK (flatten pref (emptyTag s)) = true) :
+    (hb : docTextOK (flatten pref (emptyTag s)) = true)
+    (hm : repMarkup rep (flatten pref (emptyTag s)) = true) :
     ∃ out, serRun SerSt.init (flatten pref (emptyTag s)) = some out ∧
-      Reader.read out = some (canonS s) := by
-  obtain ⟨out, h1, h2⟩ := tokenize_doc _ hb
+      Reader.read (encodeText rep out) = some (canonS s) := by
+  obtain ⟨out, h1, h2⟩ := tokenizer_inverts_serializer rep hr _ hb hm
   refine ⟨out, h1, ?_⟩
   unfold Reader.read
   rw [h2]
@@ -116,8 +128,9 @@ example :
        .start ⟨['v'], ['b']⟩ [], .end_ ⟨['v'], ['b']⟩, .pi ['p'] ['d'],
        .end_ ⟨['u'], ['a']⟩, .endNs []]
     WellNested s ∧ docOK (emptyTag s) = true ∧ docTextOK (flatten defaultPref (emptyTag s)) = true ∧
+    repMarkup (inRanges [(0, 127)]) (flatten defaultPref (emptyTag s)) = true ∧
     (serialize s).isSome = true := by
-  refine ⟨by decide, by decide, by decide, by decide⟩
+  refine ⟨by decide, by decide, by decide, by decide, by decide⟩
 
 /-- a document with re-bound prefixes, two prefixes for one URI, an undeclared
     default namespace and an unbound attribute namespace is inside the hypothesis -/
